@@ -415,7 +415,7 @@ fn peek_ord(attrs: &Vec<Attribute>, name: &str) -> Option<u64> {
 // ---------------------------------------------------------------------------------------------
 // R3: drop logging / debug assertions
 
-struct LogPass<'a> { rules: &'a mut Rules, drop_macros: Vec<String> }
+struct LogPass<'a> { rules: &'a mut Rules, drop_macros: Vec<String>, drop_nested: Vec<String> }
 fn macro_name(p: &Path) -> String {
     p.segments.iter().map(|s| s.ident.to_string()).collect::<Vec<_>>().join("::")
 }
@@ -434,6 +434,8 @@ impl<'a> VisitMut for LogPass<'a> {
                     continue;
                 }
             }
+            // R23: a nested `fn` that the contract file extracts as an item of its own is removed from the enclosing body
+            if let Stmt::Item(Item::Fn(f)) = &s { if self.drop_nested.iter().any(|n| f.sig.ident == n.as_str()) { self.rules.hit("R23.nested_fn_extracted_separately"); continue; } }
             // R20: a `const` item of reference type (lifetime elided) inside a body becomes a `let` with the same
             // initialiser and an explicit 'static lifetime (Verus rejects the elided lifetime); other consts are kept
             if let Stmt::Item(Item::Const(c)) = &s { if matches!(&*c.ty, Type::Reference(r) if r.lifetime.is_none()) {
@@ -499,6 +501,14 @@ impl<'a> VisitMut for MatchesPass<'a> {
 struct UnreachablePass<'a> { rules: &'a mut Rules }
 impl<'a> VisitMut for UnreachablePass<'a> {
     fn visit_expr_mut(&mut self, e: &mut Expr) {
+        // R22: `format!(..)` -> `vx_fmt()`: an unspecified String (message texts are not modelled)
+        if let Expr::Macro(m) = e {
+            if macro_name(&m.mac.path) == "format" {
+                self.rules.hit("R22.format_as_unspecified_string");
+                *e = parse_quote!(vx_fmt());
+                return;
+            }
+        }
         if let Expr::Macro(m) = e {
             if macro_name(&m.mac.path) == "unreachable" && m.mac.tokens.is_empty() {
                 self.rules.hit("R21.unreachable_as_obligation");
@@ -1249,7 +1259,7 @@ fn process_fn(
         errors.push(format!("{}: async fn (outside the supported subset unless the contract asks for R16)", path));
     }
     // R3
-    LogPass { rules, drop_macros: job.drop_macros.clone() }.visit_block_mut(block);
+    LogPass { rules, drop_macros: job.drop_macros.clone(), drop_nested: spec.get("drop_nested").and_then(|v| v.as_array()).map(|a| a.iter().filter_map(|x| x.as_str().map(|s| s.to_string())).collect()).unwrap_or_default() }.visit_block_mut(block);
     // R4
     LetChainPass { rules }.visit_block_mut(block);
     // R5
@@ -1582,20 +1592,48 @@ fn main() {
             }
             if descended { idx += 1 } else { break }
         }
-        // descend into nested fn items: mod::outer::inner (fn inside fn)
+        // descend into nested fn items: mod::outer::inner (fn inside fn, at any block depth, also inside `async` blocks)
+        // and mod::Type::method::inner (fn inside a method of an impl block)
+        fn nested_items(b: &Block) -> Vec<Item> {
+            struct C(Vec<Item>);
+            impl<'ast> syn::visit::Visit<'ast> for C {
+                fn visit_stmt(&mut self, st: &'ast Stmt) {
+                    if let Stmt::Item(i) = st { self.0.push(i.clone()); } else { syn::visit::visit_stmt(self, st); }
+                }
+            }
+            let mut c = C(vec![]);
+            syn::visit::Visit::visit_block(&mut c, b);
+            c.0
+        }
         let mut nested_store: Vec<Item>;
         while idx + 1 < segs.len() {
             let mut found_fn: Option<Vec<Item>> = None;
+            let mut consumed = 1;
             for it in items.iter() {
                 if let Item::Fn(f) = it {
                     if f.sig.ident == segs[idx] {
-                        let inner: Vec<Item> = f.block.stmts.iter().filter_map(|s| if let Stmt::Item(i) = s { Some(i.clone()) } else { None }).collect();
+                        let inner = nested_items(&f.block);
                         if !inner.is_empty() { found_fn = Some(inner); }
+                    }
+                }
+                if idx + 2 < segs.len() {
+                    if let Item::Impl(im) = it {
+                        let tyname = match &*im.self_ty { Type::Path(tp) => tp.path.segments.last().map(|x| x.ident.to_string()), _ => None };
+                        if im.trait_.is_none() && tyname.as_deref() == Some(segs[idx]) {
+                            for ii in im.items.iter() {
+                                if let ImplItem::Fn(m) = ii {
+                                    if m.sig.ident == segs[idx + 1] {
+                                        let inner = nested_items(&m.block);
+                                        if !inner.is_empty() { found_fn = Some(inner); consumed = 2; }
+                                    }
+                                }
+                            }
+                        }
                     }
                 }
             }
             match found_fn {
-                Some(v) => { nested_store = v; items = Box::leak(Box::new(nested_store)); idx += 1; }
+                Some(v) => { nested_store = v; items = Box::leak(Box::new(nested_store)); idx += consumed; }
                 None => break,
             }
         }
@@ -1646,7 +1684,7 @@ fn main() {
                     if let ImplItem::Fn(m) = ii {
                         filter_attrs(&mut m.attrs, &cfg, &mut rules);
                         AttrPass { cfg: &cfg, rules: &mut rules }.visit_block_mut(&mut m.block);
-                        LogPass { rules: &mut rules, drop_macros: drop_macros.clone() }.visit_block_mut(&mut m.block);
+                        LogPass { rules: &mut rules, drop_macros: drop_macros.clone(), drop_nested: vec![] }.visit_block_mut(&mut m.block);
                     }
                 }
                 rules.hit("R10.trait_impl_kept");
